@@ -87,6 +87,8 @@ func main() {
 		os.Exit(cmdSym(os.Args[2:]))
 	case "s2c":
 		os.Exit(cmdS2C(os.Args[2:]))
+	case "rnl":
+		os.Exit(cmdRNL(os.Args[2:]))
 	case "list":
 		ids := []string{}
 		for id := range registry {
